@@ -49,10 +49,10 @@ def run(chk):
             # tried: 600 s per obligation, > 80 min in total)
             combos = [('Normal',) * len(shape)]
         for kinds in combos:
-            kernel_orders(chk, it, shape, kinds)
-    reducers(chk, it)
-    lock_symmetry(chk, it)
-    closure_purity(chk, it)
+            chk.guard(kernel_orders, chk, it, shape, kinds)
+    chk.guard(reducers, chk, it)
+    chk.guard(lock_symmetry, chk, it)
+    chk.guard(closure_purity, chk, it)
 
 
 def sym_relevant_coins(st, it, txs, tag):
